@@ -26,7 +26,7 @@ CHECKS = {
    note='Same trusted base as C01; instructions per slice are counted by the verif hook.', ref='5 C13'),
 
  'C04': dict(cat='model_checking', tech='trace validation of tail-call loop programs against SchemeCEK with a refinement bound between continuation depth and the implementation stack pointer (TLC)',
-   text='In the CEK machine a call pushes no frame, so tail calls are exactly the calls across which the continuation depth D does not grow. For every loop program (21 tail contexts and their compositions x caller/callee arities 0..4 with/without rest x cycles of 1-3 procedures) TLC runs the machine at n=10 and n=100, checks value agreement with the implementation, D(10)=D(100), and that the implementation\'s maximal stack pointer stays within (D+2)(2W+5); the runs at n=1000 and n=100000 (implementation only, statistics hook) must stay within the same bound and return the value of the non-tail twin program. The compiler side is checked directly: Compile of Machine.tla threads the tail flag as R7RS 3.5 defines tail position (if arms, last body expression; derived forms reach it macro-expanded) and Trace_Machine requires the real listing of every tail program to carry TCALL at exactly those applications, then validates the frame rewrite of every TCALL in the register trace.',
+   text='In the CEK machine a call pushes no frame, so tail calls are exactly the calls across which the continuation depth D does not grow. For every loop program (21 tail contexts and their compositions x caller/callee arities 0..4 with/without rest x cycles of 1-3 procedures) TLC runs the machine at n=10 and n=100, checks value agreement with the implementation, D(10)=D(100), and that the implementation\'s maximal stack pointer stays within (D+2)(2W+5); the runs at n=1000 and n=100000 (implementation only, statistics hook) must stay within the same bound and return the value of the non-tail twin program. The compiler side is checked directly: Compile of Machine.tla threads the tail flag as R7RS 3.5 defines tail position (if arms, last body expression; derived forms reach it macro-expanded) and Trace_Machine requires the real listing of every tail program to carry TCALL at exactly those applications, then validates the frame rewrite of every TCALL in the register trace. The arithmetic behind the constant-space argument is proved with TLAPS for all natural numbers (VMRulesProofs.tla: an activation entered by TCALL returns with exactly the stack pointer the replaced activation would have returned with; CALL/ENTER/RET, VARARG and builtin calls restore the stack pointer).',
    note='The bound rests on the argument of DESIGN.md 5/C04 (each VM return frame belongs to a pending non-tail call under a distinct CEK context frame). TLC cannot run 10^5 iterations; the twin program is the value oracle there.', ref='5 C04'),
  'C11': dict(cat='model_checking', tech='exhaustive TLC model check of the reader grammar spec (Reader.tla) + replay of all TLC-generated token-class sequences into parse_text + trace validation of scanner spans',
    text='Reader.tla states R7RS 7.1.2 twice (grammar predicate and pushdown recogniser) and TLC proves them equivalent and prefix-consistent for all class sequences to length 7 (quick) / 8 (thorough). Every sequence to length 5 / 7 is emitted by TLC with its required classification (datum consuming k tokens / incomplete / error / unspecified), rendered with 8 spellings and separator choices and replayed into parse_text and the eval_text loop; seeded Unicode texts are scanned by the implementation and TLC validates the span discipline and the grammar verdict of each recorded text.',
